@@ -84,6 +84,31 @@ func webScenarios() []Scenario {
 		}
 		return ""
 	}})
+	// a page is rendered (its configuration menu reads the settings file) while a configuration is
+	// saved: the menu is the one before or the one after the save - never one without the
+	// configurations that were there all along
+	out = append(out, Scenario{Name: "S2/saveconfig-menu", Setup: func() ([]func() string, func() string) {
+		h := webUI()
+		verifrt.Quiet(func() { request(h, "/saveconfig?config=A&f=f")() })
+		menu := func() string {
+			var names []string
+			for _, e := range driver.VerifConfigMenu(settingsFile()) {
+				names = append(names, e[0])
+			}
+			return strings.Join(names, ",")
+		}
+		return []func() string{request(h, "/saveconfig?config=B&n=7"), menu, menu}, savedNames
+	}, Accept: func(res []string, final string) string {
+		for _, m := range res[1:] {
+			if m != "Default,A" && m != "Default,A,B" {
+				return "a page rendered while configuration B was being saved offers the configurations: " + m
+			}
+		}
+		if final != "A,B" {
+			return "after save(B) on [A] the settings hold: " + final
+		}
+		return ""
+	}})
 	// S3: options are read while being set
 	out = append(out, Scenario{Name: "S3/configure-configure-read", Setup: func() ([]func() string, func() string) {
 		verifrt.Quiet(func() { driver.VerifReset() })
